@@ -28,13 +28,16 @@ ConfOf(c) == IF "dh" \in DOMAIN c
              ELSE IF "subs" \in DOMAIN c
              THEN [hc |-> HcOf(c), order |-> c.order, lifecycle |-> c.lifecycle, ctimeout |-> c.ctimeout,
                    subs |-> [h \in H |-> c.subs[h]]]
+             ELSE IF "res" \in DOMAIN c
+             THEN [hc |-> HcOf(c), order |-> c.order, lifecycle |-> c.lifecycle, ctimeout |-> c.ctimeout,
+                   res |-> [ssub |-> c.res.ssub, vals |-> {}]]
              ELSE [hc |-> HcOf(c), order |-> c.order, lifecycle |-> c.lifecycle, ctimeout |-> c.ctimeout]
 TInit ==
   /\ tid \in 1..Len(Traces) /\ l = 1 /\ bad = "none" /\ exc = "none"
   /\ conf = ConfOf(Traces[tid].conf)
   /\ LET i == Traces[tid].init
          o == [exists |-> TRUE, rv |-> 1, ess |-> i.ess, lh |-> 0, prog |-> [h \in H |-> NoRec], fins |-> <<>>,
-               deleting |-> FALSE, dummy |-> 0, match |-> i.match]
+               deleting |-> FALSE, dummy |-> 0, match |-> i.match, res |-> [h \in H |-> 0]]
      IN /\ obj = o /\ chan = (IF i.up THEN << Snap("ADDED", o) >> ELSE <<>>) /\ bl = <<>>
         /\ now = i.t /\ up = i.up
   /\ stopping = FALSE /\ mem = FreshMem /\ wk = FreshWk /\ pc = "idle" /\ cyc = NoCyc
@@ -54,6 +57,7 @@ ProgOf(p) == [h \in H |-> [st |-> p[h].st, r |-> p[h].r, pu |-> p[h].pu, until |
                            first |-> IF AnyTimeout /\ p[h].st # "none" THEN p[h].first ELSE 0]]
 ObjIs(o, e) == /\ o.rv = e.rv /\ o.ess = e.ess /\ o.lh = e.lh /\ o.prog = ProgOf(e.prog) /\ o.fins = e.fins
                /\ o.deleting = e.deleting /\ (o.dummy # 0) = e.dummy /\ o.match = e.match
+               /\ ("res" \in DOMAIN e => o.res = [h \in H |-> e.res[h]])
 
 TEdit    == Ev("edit") /\ (UserEdit(E.ess) \/ Toggle(E.ess)) /\ ObjIs(obj', E)
 TDelete  == Ev("delete") /\ UserDelete /\ obj'.rv = E.rv /\ obj'.exists = ~E.gone
@@ -64,9 +68,10 @@ TBegin   == Ev("begin") /\ ProcBegin /\ Head(bl).rv = E.rv /\ Head(bl).type = E.
             /\ EffCt(wk'.ctime) = EffCt(E.ctime)
             /\ (EffCt(E.ctime) # 0 => wk'.exp = E.exp)
             /\ wk'.pr = E.pr
-TInv     == Ev("inv") /\ (InvokeWith(E.h, [k |-> E.k, d |-> E.d]) \/ InvokeSub(E.h, [k |-> E.k, d |-> E.d]))
+OutOf(e) == IF "res" \in DOMAIN e /\ e.res # 0 THEN [k |-> e.k, d |-> e.d, res |-> e.res] ELSE [k |-> e.k, d |-> e.d]
+TInv     == Ev("inv") /\ (InvokeWith(E.h, OutOf(E)) \/ InvokeSub(E.h, OutOf(E)))
             /\ cyc'.last.retry = E.retry /\ cyc'.last.reason = E.reason /\ cyc'.last.rv = E.rv
-TMerge   == Ev("merge") /\ (SrvMerge \/ SrvTouch)
+TMerge   == Ev("merge") /\ (SrvMerge \/ SrvStatus \/ SrvTouch)
             /\ IF E.code = 404 THEN ~obj.exists ELSE obj.exists /\ ObjIs(obj', E) /\ (obj' # obj) = E.changed
 TJson    == Ev("json") /\ SrvJson
             /\ CASE E.code = 404 -> ~obj.exists
